@@ -320,12 +320,13 @@ func init() {
 				{Keys: []tla.Value{a[2]}, Value: func(anchor tla.Value) tla.Value { return tla.MakeTuple(anchor) }}})
 		}})
 	dom["EXC_F"] = []string{"<<1, 2>>", "(0 :> 1 @@ 1 :> 2)", `[a |-> 1]`, "(0 :> 1 @@ 2 :> 3)"}
+	dom["SET_INT_SMALL"] = []string{"{}", "{0}", "{1}", "{(-1)}", "{0, 1}", "{1, 2}", "{(-1), 1}", "{0, 1, 2}"}
 	dom["SMALLSET"] = []string{"{}", "{1}", "{1, 2}", `{"a"}`, "{{}}", "{<<1>>}", "{2, 3}", "{0, 1}", "{TRUE, FALSE}"}
 	for _, l := range append(append([]lam{}, bodies...), intBodies...) {
 		l := l
 		sig := "SMALLSET"
 		if strings.Contains(l.tla, "+") || strings.Contains(l.tla, "*") {
-			sig = "SET_INT"
+			sig = "SET_INT_SMALL" // no MaxInt32: the overflow of + is judged at +, not here
 		}
 		add(&opDef{Name: "[x \\in S |-> " + l.tla + "]", Key: `[x \in S |-> e]`, Tmpl: `[x \in %s |-> ` + l.tla + "]", Sigs: [][]string{{sig}}, Ill: []int{0}, Need: []string{"set"},
 			Go: func(a []tla.Value) tla.Value { return tla.MakeFunction([]tla.Value{a[0]}, l.f) }})
@@ -367,6 +368,12 @@ func init() {
 	dom["QSET_INT"] = append(append([]string{}, dom["SET_INT"]...), "{0, 1, 2}", "{(-1), 0}", "{2, 3}")
 	for _, l := range anyPreds {
 		quant(l, "SET_TUP", "Q")
+		if strings.Contains(l.tla, "<<1>>") {
+			// no ill-kinded sets here: x = <<1>> on a set of integers is the defect of =, judged at =
+			for _, o := range ops[len(ops)-4:] {
+				o.Ill = nil
+			}
+		}
 	}
 	le := func(x []tla.Value) bool { return tla.ModuleLessThanOrEqualSymbol(x[0], x[1]).AsBool() }
 	add(&opDef{Name: `\A x \in S, y \in T : x <= y`, Key: `\A`, Tmpl: `\A x \in %s, y \in %s : x <= y`, Sigs: [][]string{{"SET_INT", "SET_INT"}}, Need: []string{"set", "set"},
